@@ -253,7 +253,7 @@ def main(pid, tier, seed, jobs=None):
         states=max(1, tot("paths")),
         transitions=max(1, tot("decisions")),
         traces_validated_against_impl=len(violations) + len(known_hits) + len(nonrepro),
-        programs=max(1, len(shards)) if level != "translation_validation" else max(1, n_wit),
+        programs=max(1, len(shards)) if level != "translation_validation" else max(1, wit.get("program", n_wit)),
         disagreements_checked=tot("forall_queries"),
         shards=per_shard,
         shards_total=len(results),
